@@ -2,11 +2,18 @@
 C13 — incremental parsing is independent of how the input is fragmented.
 
 Property theorems only (helper lemmas: `Proofs/Incremental.lean`; model: `Model/Incremental.lean`).
-The model is the *scanner layer* of `IterativeParser.consume` — literal / regex / bit scanning with the two
-code paths "whole terminal" and "incomplete state, re-scanned with the next fragment", the 8-columns-per-unit
-offsets and the unprocessed last column — over an abstract predict/complete closure whose assumed laws are
-`Engine.Lawful` / `Engine.LawfulCC`.  Regular expressions are an oracle; what is assumed of it is the explicit
-hypothesis `CutStable R` (checked against `re` / `regex` for every case by `harness/props/c13.py`).
+The model is the *scanner layer* of `IterativeParser.consume` as of /repo HEAD (incl. 179bde08 "an empty regex
+match is a match", a33087ac "text/bytes/regex terminals only at byte boundaries", 1ef12755 "a character above
+U+00FF has no bits"; `C13_source_configuration` pins these three shapes to the source on every run) — literal /
+regex / bit scanning with the two code paths "whole terminal" and "incomplete state, re-scanned with the next
+fragment", the 8-columns-per-unit offsets, states added to the column that is being processed (empty matches), and
+the unprocessed last column — over an abstract predict/complete closure whose assumed laws are `Engine.Lawful` /
+`Engine.LawfulCC`.  Regular expressions are an oracle; what is assumed of it is the explicit hypothesis
+`CutStable R` (checked against `re` / `regex` for every case by `harness/props/c13.py`).
+
+Since a33087ac the theorems need no alignment hypothesis any more: a text, bytes or regex terminal that follows a
+number of bits that is not a multiple of eight is simply never scanned, at once or in pieces
+(`C13_example_misaligned_run`).
 
 FULL STATEMENT (`C13_FullStatement` below): for every lawful engine, *every* oracle, every ready state and every
 way of cutting the input, the complete parses after the last piece are those of the whole input.
@@ -14,7 +21,8 @@ It is FALSE for the model and for /repo (`C13_full_statement_false`, replayed on
 harness: `<start> ::= <n> | <n> <n>; <n> ::= r"[0-9]+"` on "12" has one parse at once and two when fed as
 "1","2"): `scan_regex` only tries the one greedy `re.match` length on what is available, so a fragment
 boundary inside a digit run offers a split that the whole input never offers.  What is proved is the statement
-for oracles that are `CutStable` (literals, bytes, bits, and regexes whose match cannot grow: `ab*c`, `[0-9]{3}`…).
+for oracles that are `CutStable` (literals, bytes, bits, and regexes whose match cannot change once it was
+achieved on non-empty input: `ab*c`, `[0-9]{3}`, `a?`…).
 
 Naming: the theorems that carry the hypotheses `CutStable R` / `eng.Lawful` prove the property for a sub-class
 only and are therefore named `…_partial` (missing: regexes whose match can end in more than one place — for those
@@ -26,10 +34,19 @@ it to `Lang` needs recogniser completeness of an Earley model and stays open.
 -/
 import Proofs.Incremental
 import Proofs.IncrementalEx
+import Generated.Incr
 namespace FV
 namespace Incr
 
 variable {ι : Type}
+
+/-! ## 0. the source's current scanners (regenerated from /repo on every run) -/
+
+/-- `scan_regex` applies `match_length <= prev_match_length` to incomplete states only, `_consume` scans text /
+    bytes / regex terminals at byte boundaries only, `scan_bit` refuses units above 0xFF: the variant
+    `Model/Incremental.lean` is written for.  Reverting 179bde08, a33087ac or 1ef12755 makes this false. -/
+theorem C13_source_configuration :
+    Generated.incrCfgRead = true ∧ Generated.incrCfg = ScanCfg.modelled := by decide
 
 /-! ## 1. fragmentation is irrelevant -/
 
@@ -37,42 +54,48 @@ variable {ι : Type}
     every column and the same scheduled states in the last column — in particular the same complete items
     and the same resumable (incomplete-terminal) items. -/
 theorem C13_feed_append_partial (eng : Engine ι) (R : ROracle) (md : Mode) (hL : eng.Lawful) (hR : CutStable R)
-    (s : PState ι) (hs : s.Ready eng) (a b : Units) (hal : (feed eng R md s (a ++ b)).Aligned eng) :
+    (s : PState ι) (hs : s.Ready eng) (a b : Units) :
     (feed eng R md (feed eng R md s a) b).Equiv (feed eng R md s (a ++ b)) ∧
-    SetEq (completeParses eng (feed eng R md (feed eng R md s a) b))
-      (completeParses eng (feed eng R md s (a ++ b))) ∧
+    SetEq (completeParses eng R md (feed eng R md (feed eng R md s a) b))
+      (completeParses eng R md (feed eng R md s (a ++ b))) ∧
     SetEq (resumable (feed eng R md (feed eng R md s a) b)) (resumable (feed eng R md s (a ++ b))) := by
-  have h := (feed_append eng R md hL hR s hs.wf hs.settled hs.bytes a b hal).symm
-  exact ⟨h, completeParses_congr eng hL h, resumable_congr h⟩
+  have h := (feed_append eng R md hL hR s hs.wf hs.settled hs.bytes a b).symm
+  have hw1 := feed_wf eng R md hL hR (feed_wf eng R md hL hR hs.wf a) b
+  have hw2 := feed_wf eng R md hL hR hs.wf (a ++ b)
+  exact ⟨h, completeParses_congr eng R md hL hR h hw1 hw2, resumable_congr h⟩
 
 /-- For every list of pieces the complete parses (and the resumable states) after the last piece are those
     of the concatenated input fed at once. -/
 theorem C13_chunking_irrelevant_partial (eng : Engine ι) (R : ROracle) (md : Mode) (hL : eng.Lawful)
     (hR : CutStable R) (s : PState ι) (hs : s.Ready eng) (pieces : List Units) (w : Units)
-    (hw : pieces.flatten = w) (hal : (feed eng R md s w).Aligned eng) :
-    SetEq (completeParses eng (pieces.foldl (feed eng R md) s)) (completeParses eng (feed eng R md s w)) ∧
+    (hw : pieces.flatten = w) :
+    SetEq (completeParses eng R md (pieces.foldl (feed eng R md) s))
+      (completeParses eng R md (feed eng R md s w)) ∧
     SetEq (resumable (pieces.foldl (feed eng R md) s)) (resumable (feed eng R md s w)) := by
   subst hw
   have h := chunking eng R md hL hR s hs.wf hs.settled hs.bytes pieces.reverse
-    (by simpa using hal)
   simp only [List.reverse_reverse] at h
-  exact ⟨completeParses_congr eng hL h.symm, resumable_congr h.symm⟩
+  have hw1 := foldl_feed_wf eng R md hL hR pieces hs.wf
+  have hw2 := feed_wf eng R md hL hR hs.wf pieces.flatten
+  exact ⟨completeParses_congr eng R md hL hR h.symm hw1 hw2, resumable_congr h.symm⟩
 
 /-- The hypotheses on the state are invariants: a fresh parse is ready, and feeding keeps it ready
     (so the two theorems above apply after any number of earlier fragments). -/
 theorem C13_ready_invariant (eng : Engine ι) (R : ROracle) (md : Mode) (hL : eng.Lawful) (hR : CutStable R) :
     (∀ i, (start i).Ready eng) ∧
-    (∀ s a, s.Ready eng → (feed eng R md s a).Aligned eng → (feed eng R md s a).Ready eng) :=
-  ⟨fun i => start_ready eng i, fun s a hs hal => feed_ready eng R md hL hR s hs a hal⟩
+    (∀ s a, s.Ready eng → (feed eng R md s a).Ready eng) :=
+  ⟨fun i => start_ready eng i, fun s a hs => feed_ready eng R md hL hR s hs a⟩
 
 /-- the `incomplete_idx` bookkeeping: whatever one scan adds has `incomplete_idx` = length of the remembered
-    prefix (0 and no prefix on ordinary states), and is put no further than the end of the fragment -/
+    prefix (0 and no prefix on ordinary states), and is put no further than the end of the fragment; a text,
+    bytes or regex terminal only adds something in a column at a byte boundary -/
 theorem C13_incomplete_idx_inv (eng : Engine ι) (R : ROracle) (md : Mode) (hR : CutStable R) (k : Nat)
     (e : Entry ι) (hwf : e.WF eng) (rest : Units) (w len : Nat) (hlen : rest.length + w = len) (j : Nat)
     (x : Entry ι) (hx : (j, x) ∈ scanEntry eng R md k e rest w len) :
-    x.idx = x.pre.length ∧ (x.inc = false → x.idx = 0) ∧ (x.inc = true → j = k + 8 * rest.length) := by
-  obtain ⟨h1, h2, _, _⟩ := scanEntry_out eng R md hR k e hwf rest w len hlen j x hx
-  exact ⟨h1.idx_eq, fun h => (h1.1 h).1, fun h => (h2 h).1⟩
+    x.idx = x.pre.length ∧ (x.inc = false → x.idx = 0) ∧ (x.inc = true → j = k + 8 * rest.length) ∧
+    (wantsBytes eng e → k % 8 = 0) := by
+  obtain ⟨h1, h2, h3, _⟩ := scanEntry_out eng R md hR k e hwf rest w len hlen j x hx
+  exact ⟨h1.idx_eq, fun h => (h1.1 h).1, fun h => (h2 h).1, fun h => (h3 h).2⟩
 
 /-! ## 2. `can_continue` -/
 
@@ -80,41 +103,24 @@ theorem C13_incomplete_idx_inv (eng : Engine ι) (R : ROracle) (md : Mode) (hR :
     parse is ever reported again.  (Partial: soundness against the model's recogniser, not against `Lang`.) -/
 theorem C13_canContinue_sound_partial (eng : Engine ι) (R : ROracle) (md : Mode) (hC : eng.LawfulCC)
     (s : PState ι) (hset : s.Settled) (hcc : canContinue eng s = false) (v : Units) (hv : v ≠ []) :
-    completeParses eng (feed eng R md s v) = [] :=
+    completeParses eng R md (feed eng R md s v) = [] :=
   canContinue_false_no_parse eng R md hC s hset hcc v hv
 
 /-- … and for every way of cutting the continuation -/
 theorem C13_canContinue_sound_pieces_partial (eng : Engine ι) (R : ROracle) (md : Mode) (hL : eng.Lawful)
     (hC : eng.LawfulCC) (hR : CutStable R) (s : PState ι) (hs : s.Ready eng)
-    (hcc : canContinue eng s = false) (pieces : List Units) (hne : pieces.flatten ≠ [])
-    (hal : (feed eng R md s pieces.flatten).Aligned eng) :
-    ∀ t, t ∉ completeParses eng (pieces.foldl (feed eng R md) s) := by
+    (hcc : canContinue eng s = false) (pieces : List Units) (hne : pieces.flatten ≠ []) :
+    ∀ t, t ∉ completeParses eng R md (pieces.foldl (feed eng R md) s) := by
   intro t ht
-  have h := (C13_chunking_irrelevant_partial eng R md hL hR s hs pieces _ rfl hal).1 t
+  have h := (C13_chunking_irrelevant_partial eng R md hL hR s hs pieces _ rfl).1 t
   rw [C13_canContinue_sound_partial eng R md hC s hs.settled hcc _ hne] at h
   exact absurd (h.mp ht) (by simp)
 
 /-! ## 3. the hypotheses are satisfiable: a concrete lawful engine and concrete oracles -/
 
 /-- the engine for finite unions of terminal sequences satisfies every assumed law -/
-theorem C13_linEngine_lawful : linEngine.Lawful ∧ linEngine.LawfulCC := by
-  constructor
-  · refine ⟨fun _ _ _ _ => Iff.rfl, fun _ _ _ _ _ h => h, fun _ _ h => h, ?_⟩
-    intro c c' h t
-    simp only [linEngine, List.mem_map, List.mem_filter, Bool.and_eq_true, Bool.not_eq_true']
-    constructor
-    · rintro ⟨e, ⟨he, hi, hr⟩, rfl⟩
-      have := (h e).mp (mem_core.mpr ⟨he, hi⟩)
-      exact ⟨e, ⟨(mem_core.mp this).1, hi, hr⟩, rfl⟩
-    · rintro ⟨e, ⟨he, hi, hr⟩, rfl⟩
-      have := (h e).mpr (mem_core.mpr ⟨he, hi⟩)
-      exact ⟨e, ⟨(mem_core.mp this).1, hi, hr⟩, rfl⟩
-  · refine ⟨?_, fun _ => rfl, rfl⟩
-    intro d s h e he
-    have := (h e he).2
-    simp only [linEngine, List.isEmpty_iff] at this ⊢
-    rw [this]
-    rfl
+theorem C13_linEngine_lawful : linEngine.Lawful ∧ linEngine.LawfulCC :=
+  ⟨linEngine_lawful, linEngine_lawfulCC⟩
 
 /-- no regex terminals: the oracle is never consulted, every hypothesis on it holds -/
 def noRegex : ROracle := ⟨fun _ _ => none, fun _ _ => none⟩
@@ -191,6 +197,56 @@ theorem C13_digits_not_cutStable : ¬ CutStable digits := by
   revert this
   decide
 
+/-- the oracle of `r"a?"`: a regex that matches the empty string — and is cut-stable (its match is decided by
+    the first unit) -/
+def optA : ROracle where
+  full := fun _ z => match z with
+    | c :: _ => if c = 97 then some 1 else some 0
+    | [] => some 0
+  part := fun _ z => match z with
+    | [] => some 0
+    | [c] => if c = 97 then some 1 else none
+    | _ => none
+
+theorem C13_optA_cutStable : CutStable optA := by
+  refine ⟨?_, ?_, ?_, ?_, ?_, ?_⟩
+  · intro r z q h
+    match z, h with
+    | [], h => simp [optA] at h; subst h; rfl
+    | [c], h =>
+      simp only [optA] at h
+      split at h <;> simp_all
+    | _ :: _ :: _, h => simp [optA] at h
+  · intro r z m h
+    match z, h with
+    | [], h => simp [optA] at h; subst h; simp
+    | c :: _, h =>
+      simp only [optA] at h
+      split at h <;> simp_all <;> omega
+  · intro r x y h
+    match x, y, h with
+    | [], _, _ => simp [optA]
+    | [c], [], h => simpa using h
+    | [c], _ :: _, h => simp [optA] at h
+    | _ :: _ :: _, _, h => simp [optA] at h
+  · intro r x y m h hlt
+    match x, h, hlt with
+    | [], _, _ => simp [optA]
+    | c :: _, h, hlt =>
+      simp only [optA, List.cons_append] at h
+      split at h <;> simp_all <;> omega
+  · intro r x y m h hne
+    match x, h, hne with
+    | [], _, hne => exact absurd rfl hne
+    | c :: _, h, _ => simpa [optA] using h
+  · intro r x y m h hle
+    match x, h, hle with
+    | [], h, hle =>
+      simp only [List.length_nil, Nat.le_zero] at hle
+      subst hle
+      simp [optA]
+    | c :: _, h, _ => simpa [optA] using h
+
 /-! ## 4. non-vacuity: concrete runs that meet every hypothesis, with cuts inside terminals -/
 
 /-- `<start> ::= "abc" 0 1 0 0 0 0 0 1 "é"` (as units) -/
@@ -199,46 +255,19 @@ def exAlts : List (List TTerm) :=
 
 def exInput : Units := [97, 98, 99, 65, 233]
 
-/-- the run on `exInput` is aligned and ready, every cut of it gives exactly the parse of the whole input,
-    there is one such parse, and cutting inside "abc" leaves a resumable state with prefix "ab" -/
+/-- the run on `exInput` is ready, every cut of it gives exactly the parse of the whole input, there is one such
+    parse, and cutting inside "abc" leaves a resumable state with prefix "ab" -/
 theorem C13_example_run :
     (linStart exAlts).Ready linEngine ∧
-    (feed linEngine noRegex .text (linStart exAlts) exInput).Aligned linEngine ∧
-    (completeParses linEngine (feed linEngine noRegex .text (linStart exAlts) exInput)).length = 1 ∧
-    (completeParses linEngine
+    (completeParses linEngine noRegex .text (feed linEngine noRegex .text (linStart exAlts) exInput)).length = 1 ∧
+    (completeParses linEngine noRegex .text
       ([[97, 98], [99, 65], [233]].foldl (feed linEngine noRegex .text) (linStart exAlts))).length = 1 ∧
     (resumable (feed linEngine noRegex .text (linStart exAlts) [97, 98])).map (fun e => (e.idx, e.pre))
       = [(2, [97, 98])] ∧
     canContinue linEngine (feed linEngine noRegex .text (linStart exAlts) [97, 98]) = true ∧
     canContinue linEngine (feed linEngine noRegex .text (linStart exAlts) exInput) = false := by
-  refine ⟨⟨?_, ?_, rfl⟩, ?_, by decide +kernel, by decide +kernel, by decide +kernel, by decide +kernel,
+  refine ⟨linStart_ready _, by decide +kernel, by decide +kernel, by decide +kernel, by decide +kernel,
     by decide +kernel⟩
-  · intro p hp
-    simp only [linStart, exAlts, List.map_cons, List.map_nil, List.mem_singleton] at hp
-    subst hp
-    exact fresh_wf _ _
-  · intro p hp
-    simp only [linStart, exAlts, List.map_cons, List.map_nil, List.mem_singleton] at hp
-    subst hp
-    simp [linStart]
-  · -- alignment: check the 40 processed columns
-    intro k col hget h8 e he hwb
-    have hall : ((feed linEngine noRegex .text (linStart exAlts) exInput).done.zipIdx.all (fun (c, k) =>
-        k % 8 == 0 || c.all (fun e => match linEngine.want e.item with
-          | some (.lit _) => false | some (.regex _) => false | _ => true))) = true := by
-      decide +kernel
-    rw [List.all_eq_true] at hall
-    have hmem : (col, k) ∈ (feed linEngine noRegex .text (linStart exAlts) exInput).done.zipIdx := by
-      rw [List.mem_zipIdx_iff_getElem?]
-      simpa using hget
-    have := hall _ hmem
-    simp only [Bool.or_eq_true, beq_iff_eq, List.all_eq_true] at this
-    rcases this with h0 | hc
-    · exact h8 h0
-    · have := hc e he
-      rcases hwb with ⟨l, hl⟩ | ⟨r, hr⟩
-      · simp [hl] at this
-      · simp [hr] at this
 
 /-- the oracle of `r"[0-9]{2}"` is cut-stable: a regex with a multi-unit match inside which a cut can fall -/
 theorem C13_twoDigits_cutStable : CutStable twoDigits := twoDigits_cutStable
@@ -250,42 +279,99 @@ def reAlts : List (List TTerm) := [[.regex 0, .lit [97]]]
     the parse is the one of the whole input, and after "1" the regex waits as a resumable state with prefix "1" -/
 theorem C13_example_regex_run :
     (linStart reAlts).Ready linEngine ∧
-    (feed linEngine twoDigits .text (linStart reAlts) [49, 50, 97]).Aligned linEngine ∧
-    (completeParses linEngine (feed linEngine twoDigits .text (linStart reAlts) [49, 50, 97])).map Tree.leaves
+    (completeParses linEngine twoDigits .text
+      (feed linEngine twoDigits .text (linStart reAlts) [49, 50, 97])).map Tree.leaves
       = [[Leaf.text [49, 50], Leaf.text [97]]] ∧
-    (completeParses linEngine
+    (completeParses linEngine twoDigits .text
       ([[49], [50, 97]].foldl (feed linEngine twoDigits .text) (linStart reAlts))).map Tree.leaves
       = [[Leaf.text [49, 50], Leaf.text [97]]] ∧
     (resumable (feed linEngine twoDigits .text (linStart reAlts) [49])).map (fun e => (e.idx, e.pre))
       = [(1, [49])] ∧
     canContinue linEngine (feed linEngine twoDigits .text (linStart reAlts) [49]) = true := by
-  refine ⟨linStart_ready _, aligned_of_check _ (by decide +kernel), by decide +kernel, by decide +kernel,
+  refine ⟨linStart_ready _, by decide +kernel, by decide +kernel, by decide +kernel, by decide +kernel⟩
+
+/-- `<start> ::= r"a?" "b" | "b" r"a?"`: a regex that matches the empty string before another symbol and at the
+    end of the input -/
+def epsAlts : List (List TTerm) := [[.regex 0, .lit [98]], [.lit [98], .regex 0]]
+
+/-- **an empty regex match is a match** (179bde08), in the column that is being processed: "b" is parsed both
+    ways (ε·b and b·ε — the second one only through the scan of the exhausted fragment, `lastCol`), "ab" and "ba"
+    one way each, at once and unit by unit; after "b" the regex of `"b" r"a?"` still waits (ordinary state), so
+    the parse can continue -/
+theorem C13_example_empty_regex_run :
+    (linStart epsAlts).Ready linEngine ∧
+    (completeParses linEngine optA .text (feed linEngine optA .text (linStart epsAlts) [98])).map Tree.leaves
+      = [[Leaf.text [], Leaf.text [98]], [Leaf.text [98], Leaf.text []]] ∧
+    (completeParses linEngine optA .text (feed linEngine optA .text (linStart epsAlts) [97, 98])).map Tree.leaves
+      = [[Leaf.text [97], Leaf.text [98]]] ∧
+    (completeParses linEngine optA .text
+      ([[97], [98]].foldl (feed linEngine optA .text) (linStart epsAlts))).map Tree.leaves
+      = [[Leaf.text [97], Leaf.text [98]]] ∧
+    (completeParses linEngine optA .text (feed linEngine optA .text (linStart epsAlts) [98, 97])).map Tree.leaves
+      = [[Leaf.text [98], Leaf.text [97]]] ∧
+    (completeParses linEngine optA .text
+      ([[98], [97]].foldl (feed linEngine optA .text) (linStart epsAlts))).map Tree.leaves
+      = [[Leaf.text [98], Leaf.text [97]]] ∧
+    canContinue linEngine (feed linEngine optA .text (linStart epsAlts) [98]) = true ∧
+    canContinue linEngine (feed linEngine optA .text (linStart epsAlts) [97, 98]) = false := by
+  refine ⟨linStart_ready _, by decide +kernel, by decide +kernel, by decide +kernel, by decide +kernel,
+    by decide +kernel, by decide +kernel, by decide +kernel⟩
+
+/-- `<start> ::= 0 1 1 0 "a" 1 1 1 1 | 0 1 1 0 0 0 0 1 "a"`: a text terminal after four bits, and after eight -/
+def misAlts : List (List TTerm) :=
+  [[false, true, true, false].map TTerm.bit ++ [.lit [97]] ++ [true, true, true, true].map TTerm.bit,
+   [false, true, true, false, false, false, false, true].map TTerm.bit ++ [.lit [97]]]
+
+/-- **text terminals are only scanned at byte boundaries** (a33087ac): "a\x1f" is not parsed as 0110·"a"·1111
+    (the state that waits for "a" in column 4 is never scanned — at once or in pieces; after the first unit the
+    parse can continue only through the aligned alternative), "aa" is parsed as eight bits and "a" -/
+theorem C13_example_misaligned_run :
+    (linStart misAlts).Ready linEngine ∧
+    completeParses linEngine noRegex .bytes (feed linEngine noRegex .bytes (linStart misAlts) [97, 31]) = [] ∧
+    completeParses linEngine noRegex .bytes
+      ([[97], [31]].foldl (feed linEngine noRegex .bytes) (linStart misAlts)) = [] ∧
+    (completeParses linEngine noRegex .bytes (feed linEngine noRegex .bytes (linStart misAlts) [97, 97])).length = 1 ∧
+    (completeParses linEngine noRegex .bytes
+      ([[97], [97]].foldl (feed linEngine noRegex .bytes) (linStart misAlts))).length = 1 ∧
+    canContinue linEngine (feed linEngine noRegex .bytes (linStart misAlts) [97]) = true ∧
+    canContinue linEngine (feed linEngine noRegex .bytes (linStart misAlts) [97, 31]) = false := by
+  refine ⟨linStart_ready _, by decide +kernel, by decide +kernel, by decide +kernel, by decide +kernel,
     by decide +kernel, by decide +kernel⟩
+
+/-- **a character above U+00FF has no bits** (1ef12755): the bit pattern of "a" does not accept "š" (U+0161,
+    low byte 0x61), it accepts "a" -/
+theorem C13_example_wide_char_run :
+    completeParses linEngine noRegex .text (feed linEngine noRegex .text
+      (linStart [[false, true, true, false, false, false, false, true].map TTerm.bit]) [353]) = [] ∧
+    (completeParses linEngine noRegex .text (feed linEngine noRegex .text
+      (linStart [[false, true, true, false, false, false, false, true].map TTerm.bit]) [97])).length = 1 := by
+  constructor <;> decide +kernel
 
 /-! ## 5. the full statement is false: a regex whose match can grow -/
 
 /-- the statement of C13 for *every* oracle -/
 def C13_FullStatement : Prop :=
   ∀ (eng : Engine LinItem) (R : ROracle) (md : Mode), eng.Lawful → ∀ (s : PState LinItem), s.Ready eng →
-    ∀ (pieces : List Units), (feed eng R md s pieces.flatten).Aligned eng →
-      SetEq (completeParses eng (pieces.foldl (feed eng R md) s))
-        (completeParses eng (feed eng R md s pieces.flatten))
+    ∀ (pieces : List Units),
+      SetEq (completeParses eng R md (pieces.foldl (feed eng R md) s))
+        (completeParses eng R md (feed eng R md s pieces.flatten))
 
 /-- `<start> ::= <n> | <n> <n>; <n> ::= r"[0-9]+"` -/
 def splitAlts : List (List TTerm) := [[.regex 0], [.regex 0, .regex 0]]
 
 /-- **the full statement is false**: with the oracle of `r"[0-9]+"` the engine for `<n> | <n> <n>` is lawful,
-    the fresh parse is ready, the run on "12" is aligned — and feeding "1","2" yields the parse 1·2 that
-    feeding "12" does not. -/
+    the fresh parse is ready — and feeding "1","2" yields the parse 1·2 that feeding "12" does not. -/
 theorem C13_full_statement_false : ¬ C13_FullStatement := by
   intro h
   have hs := h linEngine digits .text C13_linEngine_lawful.1 (linStart splitAlts) (linStart_ready _)
-    [[49], [50]] (aligned_of_check _ (by decide +kernel))
+    [[49], [50]]
   have hin : [Leaf.text [49], Leaf.text [50]] ∈
-      (completeParses linEngine ([[49], [50]].foldl (feed linEngine digits .text) (linStart splitAlts))).map
+      (completeParses linEngine digits .text
+        ([[49], [50]].foldl (feed linEngine digits .text) (linStart splitAlts))).map
         Tree.leaves := by decide +kernel
   have hout : [Leaf.text [49], Leaf.text [50]] ∉
-      (completeParses linEngine (feed linEngine digits .text (linStart splitAlts) [[49], [50]].flatten)).map
+      (completeParses linEngine digits .text
+        (feed linEngine digits .text (linStart splitAlts) [[49], [50]].flatten)).map
         Tree.leaves := by decide +kernel
   rw [List.mem_map] at hin
   obtain ⟨t, ht, hl⟩ := hin
@@ -293,8 +379,8 @@ theorem C13_full_statement_false : ¬ C13_FullStatement := by
 
 /-- "12" at once: one parse; "1" then "2": two parses (the boundary offers the split 1|2) -/
 theorem C13_regex_split_counterexample :
-    (completeParses linEngine (feed linEngine digits .text (linStart splitAlts) [49, 50])).length = 1 ∧
-    (completeParses linEngine
+    (completeParses linEngine digits .text (feed linEngine digits .text (linStart splitAlts) [49, 50])).length = 1 ∧
+    (completeParses linEngine digits .text
       ([[49], [50]].foldl (feed linEngine digits .text) (linStart splitAlts))).length = 2 := by
   constructor <;> decide +kernel
 
